@@ -38,34 +38,12 @@
 } while (0)
 
 
-int32_t jls_copy(const char * src, const char * dst,
-                 jls_copy_msg_fn msg_fn, void * msg_user_data,
-                 jls_copy_progress_fn progress_fn, void * progress_user_data) {
+static int32_t copy_chunks(struct jls_raw_s * rd, struct jls_wr_s * wr, struct jls_buf_s * buf,
+                           int64_t offset, int64_t offset_end,
+                           jls_copy_msg_fn msg_fn, void * msg_user_data,
+                           jls_copy_progress_fn progress_fn, void * progress_user_data) {
     int32_t rc = 0;
-    int64_t offset = 0;
     int64_t offset_progress = 0;
-    struct jls_raw_s * rd = NULL;
-    struct jls_wr_s * wr = NULL;
-    struct jls_buf_s * buf = jls_buf_alloc();
-    if (NULL == buf) {
-        return JLS_ERROR_NOT_ENOUGH_MEMORY;
-    }
-
-    rc = jls_raw_open(&rd, src, "r");
-    if (rc && (rc != JLS_ERROR_TRUNCATED)) {
-        return rc;
-    }
-    offset = jls_raw_chunk_tell(rd);
-    jls_raw_seek_end(rd);
-    int64_t offset_end = jls_raw_chunk_tell(rd);
-    jls_raw_chunk_seek(rd, offset);
-
-    rc = jls_wr_open(&wr, dst);
-    if (rc) {
-        jls_raw_close(rd);
-        return rc;
-    }
-
     struct jls_chunk_header_s hdr;
 
     while (offset < offset_end) {
@@ -202,10 +180,45 @@ int32_t jls_copy(const char * src, const char * dst,
             offset_progress = offset;
         }
     }
-    if (NULL != progress_fn) {
+    return 0;
+}
+
+int32_t jls_copy(const char * src, const char * dst,
+                 jls_copy_msg_fn msg_fn, void * msg_user_data,
+                 jls_copy_progress_fn progress_fn, void * progress_user_data) {
+    int32_t rc = 0;
+    int64_t offset = 0;
+    struct jls_raw_s * rd = NULL;
+    struct jls_wr_s * wr = NULL;
+    struct jls_buf_s * buf = jls_buf_alloc();
+    if (NULL == buf) {
+        return JLS_ERROR_NOT_ENOUGH_MEMORY;
+    }
+
+    rc = jls_raw_open(&rd, src, "r");
+    if (rc && (rc != JLS_ERROR_TRUNCATED)) {
+        jls_buf_free(buf);
+        return rc;
+    }
+    offset = jls_raw_chunk_tell(rd);
+    jls_raw_seek_end(rd);
+    int64_t offset_end = jls_raw_chunk_tell(rd);
+    jls_raw_chunk_seek(rd, offset);
+
+    rc = jls_wr_open(&wr, dst);
+    if (rc) {
+        jls_raw_close(rd);
+        jls_buf_free(buf);
+        return rc;
+    }
+
+    // every exit releases the source, the destination and the buffer
+    rc = copy_chunks(rd, wr, buf, offset, offset_end, msg_fn, msg_user_data, progress_fn, progress_user_data);
+    if ((0 == rc) && (NULL != progress_fn)) {
         progress_fn(progress_user_data, 1.0);
     }
     jls_raw_close(rd);
     jls_wr_close(wr);
-    return 0;
+    jls_buf_free(buf);
+    return rc;
 }
